@@ -70,7 +70,7 @@ class CFModel(CustomModel):
         Returns:
             A new CFModel.
         """
-        extra_params = {} if extra_params is None else extra_params
+        extra_params = {} if extra_params is None else dict(extra_params)
         # default parameters
         params = {}
         for key, parameter in self.Parameters.items():
